@@ -35,7 +35,9 @@ def units(tier):
 def setup(ctx):
     from gemdat import Trajectory
 
-    _mon.attach(Trajectory, 'drift', label='Trajectory.drift')
+    from .. import retain as _rt
+
+    _mon.attach(Trajectory, 'drift', label='Trajectory.drift', retain=_rt.auto, scribble=True)
     _mon.attach(Trajectory, 'apply_drift_correction', label='Trajectory.apply_drift_correction')
 
 
